@@ -10,6 +10,8 @@ pub mod raft;
 pub mod starter;
 pub mod user;
 pub mod utils;
+#[cfg(nacos_group_r_nacos_verif)]
+pub mod verif_hooks;
 pub mod web_config;
 
 pub mod health;
